@@ -949,6 +949,7 @@ func (s *Subscription) loadAccess(cb func(*rescache.Access), t *rescache.Throttl
 // unless the subscription has been disposed while waiting for the throttle.
 func (s *Subscription) throttledAccess(t *rescache.Throttle) {
 	if s.state == stateDisposed {
+		s.failAccessCallbacks()
 		t.Done()
 		return
 	}
@@ -961,19 +962,13 @@ func (s *Subscription) throttledAccess(t *rescache.Throttle) {
 // handleAccess passes the access response on to the callbacks waiting for it.
 func (s *Subscription) handleAccess(access *rescache.Access) {
 	s.c.Enqueue(func() {
-		cbs := s.accessCallbacks
-		s.flags &= ^flagAccessCalled
 		if s.state == stateDisposed {
-			// Let requests waiting for the access response get
-			// an error response.
-			s.accessCallbacks = nil
-			access = &rescache.Access{Error: errDisposedSubscription}
-			for _, cb := range cbs {
-				cb(access)
-			}
+			s.failAccessCallbacks()
 			return
 		}
 
+		cbs := s.accessCallbacks
+		s.flags &= ^flagAccessCalled
 		// Only store in case of an actual result or system.accessDenied error
 		if access.Error == nil || access.Error.Code == reserr.CodeAccessDenied {
 			s.access = access
@@ -984,6 +979,18 @@ func (s *Subscription) handleAccess(access *rescache.Access) {
 			cb(access)
 		}
 	})
+}
+
+// failAccessCallbacks lets the requests waiting for the access response of a
+// disposed subscription get an error response.
+func (s *Subscription) failAccessCallbacks() {
+	cbs := s.accessCallbacks
+	s.accessCallbacks = nil
+	s.flags &= ^flagAccessCalled
+	access := &rescache.Access{Error: errDisposedSubscription}
+	for _, cb := range cbs {
+		cb(access)
+	}
 }
 
 // CanGet checks asynchronously if the client connection has access to get (read)
